@@ -402,3 +402,10 @@ def is_upgrade_request(environ, protocols):
 def json_text(v):
     """json.dumps(v) with the default separators (library function, assumed)."""
     return json.dumps(v)
+
+
+def sock_wf(s):
+    """Well-formedness of a socket object (what every socket method requires)."""
+    return s.server.ping_timeout >= 0 and s.server.ping_interval >= 0 and \
+        (s.last_ping is None or isinstance(s.last_ping, float)) and \
+        s.queue.unf >= len(s.queue.items)
